@@ -77,7 +77,7 @@ void register_type(const char *tname, int casesPerInstance)
 #ifdef C04_T
 static void register_properties()
 {
-  c04::register_type<C04_T>(C04_TNAME, 100);
+  c04::register_type<C04_T>(C04_TNAME, 600);
 }
 PBT_MAIN("C04_" C04_TNAME)
 #endif
